@@ -993,6 +993,12 @@ pub fn gen_cand(r: &mut Rng, n: usize) -> Vec<String> {
                 rx.retain(|k, _| present.contains(k));
                 let (c, rest) = op.split_at(1);
                 let k: Option<usize> = rest.split(':').next().and_then(|t| t.parse().ok());
+                if c == "K" {
+                    // the address may be connected again at once (it was still queued as a candidate): a new task, nothing assigned
+                    if let Some(k) = k {
+                        rx.remove(&k);
+                    }
+                }
                 let idx = |s: &str| s[2..].parse::<usize>().ok();
                 if let Some(k) = k {
                     match c {
